@@ -35,6 +35,9 @@ func (c *C18) Plan(tier string) engine.Plan {
 
 func (c *C18) Run(x *engine.Ctx) *engine.Violation {
 	t := x.T
+	if x.Run%10 == 9 {
+		return c.concurrentCallers(x) // World L: interleaved histories on separate trees
+	}
 	var depth int
 	switch t.Weighted(6, 2, 2) {
 	case 0:
@@ -105,7 +108,7 @@ func (c *C18) Run(x *engine.Ctx) *engine.Violation {
 		}
 		var val *big.Int
 		vcls := "rand"
-		switch t.Weighted(6, 2, 1, 1) {
+		switch t.Weighted(6, 2, 1, 1, 2) {
 		case 0:
 			val = t.BigBelow(oracle.R)
 		case 1:
@@ -114,9 +117,52 @@ func (c *C18) Run(x *engine.Ctx) *engine.Violation {
 		case 2:
 			val = big.NewInt(int64(1 + t.Draw(5)))
 			vcls = "small"
-		default:
+		case 3:
 			val = new(big.Int).Sub(oracle.R, big.NewInt(int64(1+t.Draw(2))))
 			vcls = "r-1"
+		default:
+			// a value RELATED to something the history already contains: anything a lossy key, a
+			// variable-length encoding or a confusion of leaves with inner nodes could mix up
+			base := big.NewInt(int64(1 + t.Draw(5)))
+			if len(written) > 0 && t.Chance(2, 3) {
+				base = new(big.Int).Set(model.Get(written[t.Pick(len(written))]))
+			}
+			vcls = "related"
+			switch t.Draw(9) {
+			case 0: // the same value again, at whatever index was drawn
+				val = base
+			case 1: // shifted left by whole bytes (same minimal bytes followed by zero bytes)
+				val = new(big.Int).Lsh(base, uint(8*(1+t.Draw(4))))
+			case 2: // shifted right by whole bytes
+				val = new(big.Int).Rsh(base, uint(8*(1+t.Draw(4))))
+			case 3: // byte order reversed
+				b := base.Bytes()
+				for i, j := 0, len(b)-1; i < j; i, j = i+1, j-1 {
+					b[i], b[j] = b[j], b[i]
+				}
+				val = new(big.Int).SetBytes(b)
+			case 4: // neighbour
+				val = new(big.Int).Add(base, big.NewInt(1))
+			case 5: // a power of two or one below it, of any byte length
+				val = new(big.Int).Lsh(big.NewInt(1), uint(1+t.Draw(253)))
+				if t.Chance(1, 2) {
+					val.Sub(val, big.NewInt(1))
+				}
+			case 6: // a random value of a drawn byte length (1..31 bytes)
+				val = t.BigBelow(new(big.Int).Lsh(big.NewInt(1), uint(8*(1+t.Draw(31)))))
+			case 7: // the current root, or the root of an empty subtree: an inner-node value used as a leaf
+				val = new(big.Int).Set(model.Root())
+				if t.Chance(1, 2) {
+					val = new(big.Int).Set(oracle.NewTree(1 + t.Draw(depth)).Root())
+				}
+			default: // the sum / xor of two earlier values
+				o := big.NewInt(int64(t.Draw(300)))
+				if len(written) > 1 {
+					o = model.Get(written[t.Pick(len(written))])
+				}
+				val = new(big.Int).Xor(base, o)
+			}
+			val.Mod(val, oracle.R)
 		}
 		prevVal := model.Get(idx)
 		prevRoot := model.Root()
